@@ -12,6 +12,12 @@ var table = map[string]func(*checks.Run){
 	"FIX": checks.Fixtures,
 	"C02": checks.C02,
 	"C19": checks.C19,
+	"C06": checks.C06,
+	"C07": checks.C07,
+	"C10": checks.C10,
+	"C11": checks.C11,
+	"C12": checks.C12,
+	"C13": checks.C13,
 }
 
 func main() {
